@@ -146,7 +146,18 @@ class G:
             p = self.pick(anyp)
             t = self.types[p]
             choice = self.pick(['tag', 'tag', 'wrap', 'pair', 'ident', 'fanout', 'falsy'] + (['totuple'] if t[0] == 'list' else []))
-            if choice == 'tag':
+            if choice == 'tag' and self.chance(0.3):
+                # map(func, *args, **kwargs): extras after the element
+                node = {'op': 'map', 'up': [p], 'fn': ['tag', r.randrange(1, 9)]}
+                extra = ()
+                if self.chance(0.7):
+                    node['args'] = [r.randrange(1, 9) for _ in range(self.pick([1, 1, 2]))]
+                    extra += tuple(INT for _ in node['args'])
+                if self.chance(0.4) or not extra:
+                    node['kwargs'] = {'kw': r.randrange(1, 9)}
+                    extra += (INT,)
+                self.add(node, ('fix', (('fix', (INT, t)),) + extra))
+            elif choice == 'tag':
                 self.add({'op': 'map', 'up': [p], 'fn': ['tag', r.randrange(1, 9)]}, ('fix', (INT, t)))
             elif choice == 'wrap':
                 self.add({'op': 'map', 'up': [p], 'fn': ['wrap']}, ('fix', (t,)))
